@@ -178,6 +178,8 @@ def generate(tier):
         for assign in assignments(sh, 'cim'):
             for ctx in CTX[1:]:
                 cases.append(build(sh, assign, 'H', ctx=ctx))
+    from .common import decoy_layer
+    cases += decoy_layer([c for c in cases if c is not None])
     seen, out = set(), []
     for c in cases:
         if c.key not in seen:
